@@ -50,6 +50,8 @@ Shapes(self) ==
    <<Ds(X1), Cr("ok")>>, <<Cr("ok"), Ds(Caller)>>, <<Cr("ok"), Ds(Caller), Cr("ok")>>,
    <<C2("s1", "ok"), Rv>>, <<Cr("ok"), Cl(Last, <<C2("s1", "ok")>>), Rv>>,
    <<C2("s1", "ok"), Cl(Last, <<Cr("ok")>>)>>,
+   <<Cr("reenter")>>, <<Cr("reenter"), Cr("ok")>>, <<C2("s1", "reenter")>>, <<Cr("reenter"), Rv>>,
+   <<Cr("ok"), Cl(Last, <<Cr("reenter")>>)>>,
    <<Cl(self, <<Ds(Caller)>>), Cr("ok")>>, <<Cl(self, <<Ds(Caller), Rv>>), C2("s2", "ok")>>}
 
 Progs(s, self) == {<<x>> : x \in Atoms(s)} \cup Shapes(self)
@@ -87,7 +89,7 @@ Calls(s) ==
   \cup {Blank @@ [a |-> "Exec4", from |-> <<"builtin", "power">>, ct |-> "power", f4 |-> X1, init |-> "ok",
                   code |-> cd] : cd \in {"evm", "multisig"}}
   \cup {Blank @@ [a |-> "CreateExternal", from |-> f, init |-> i] :
-          f \in Senders(s), i \in {"ok", "revert", "sd", "empty"}}
+          f \in Senders(s), i \in {"ok", "revert", "sd", "empty", "reenter"}}
   \cup UNION {{Blank @@ [a |-> "Invoke", from |-> K1, to |-> t, prog |-> p] : p \in Progs(s, t)} :
               t \in EvmAddrs(s)}
 
